@@ -878,8 +878,72 @@ class LoopFn:
         return "(match %s fuel0 fuel0 %s with Go %s => %s | Done r => Done r | Oob => Oob | NoFuel => NoFuel end)" % (
             name, " ".join(consts + state), st_tuple if state else "_", nxt())
 
+    # ------------------------------------------------------------------ one loop of a function, on its own
+    def find_loops(self, n, acc):
+        if n.get("kind") in ("WhileStmt", "DoStmt", "ForStmt"):
+            acc.append(n)
+        for c in self.inner(n):
+            self.find_loops(c, acc)
+
+    def translate_loop(self, index):
+        """the index-th loop (pre-order) of the function as a definition of its own: parameters = the variables it reads (for an object
+        `x` whose mapped accessor is called, the field variable, e.g. x_buffer_), result = the final values of the variables it assigns"""
+        loops = []
+        self.find_loops(self.node, loops)
+        if index >= len(loops):
+            raise Unsupported("the function has only %d loops" % len(loops))
+        lp = loops[index]
+        # declare exactly the scalar / pointer variables the loop mentions
+        decls = {}
+
+        def collect(n):
+            if n.get("kind") in ("VarDecl", "ParmVarDecl") and n.get("name"):
+                decls[n["name"]] = n
+            for c in self.inner(n):
+                collect(c)
+        collect(self.node)
+        used = set()
+
+        def uses(n):
+            if n.get("kind") == "DeclRefExpr" and n["referencedDecl"].get("kind") in ("ParmVarDecl", "VarDecl"):
+                used.add(n["referencedDecl"]["name"])
+            for c in self.inner(n):
+                uses(c)
+        uses(lp)
+        for nm in decls:
+            if nm in used:
+                try:
+                    self.declare(nm, qual(decls[nm]))
+                except Unsupported:
+                    pass                       # an object: only reachable through its mapped accessors
+        self.cur_void = True
+        self.fn_stores = False
+        self.stores = False
+        self.nloops = 0
+        refs, assigned, declared, flags = set(), set(), set(), set()
+        self.scan(lp, refs, assigned, declared, flags)
+        if "store" in flags:
+            raise Unsupported("a loop that stores cannot be extracted")
+        assigned -= declared
+        state = [v for v in self.order if v in assigned]
+        self.rtype = " * ".join(self.vars[v] for v in state) if state else "unit"
+        st_tuple = "(" + ", ".join(state) + ")" if len(state) != 1 else state[0]
+        if not state:
+            st_tuple = "tt"
+        # the for-init runs inside: its variables start from what it assigns
+        text = self.loop(lp, lambda: "(Done %s)" % st_tuple, {})
+        refs2, a2, d2, f2 = set(), set(), set(), set()
+        self.scan(lp, refs2, a2, d2, f2)
+        free = [v for v in self.order if v in (refs2 | a2) and v not in d2]
+        ps = " ".join("(%s : %s)" % (v, self.vars[v]) for v in free)
+        hdr = "(* %s : %s, loop %d *)\n" % (self.cfg["file"], self.cfg["name"], index + 1)
+        return hdr + "".join(self.loops) + ("Definition %s (fuel0 : nat) (mem : " + self.MEM_T + ") %s : fres (%s) :=\n  finish (R := (%s)) (A := unit)\n    %s.\n") % (
+            self.coq, ps, self.rtype, self.rtype, pretty(text))
+
     # ------------------------------------------------------------------ whole function
     def translate(self):
+        if "loop_index" in self.cfg:
+            return self.translate_loop(self.cfg["loop_index"])
         node = self.node
         params, body = [], None
         for c in self.inner(node):
